@@ -12,14 +12,14 @@ Definition sval (k:Z) : list Z := if k =? inv then [] else entry d_idx d_val k.
 Lemma sval_inv : sval inv = [].
 Proof. unfold sval. rewrite Z.eqb_refl. reflexivity. Qed.
 
-Variables (map_ : list Z) (sm_end : Z) (indices : list Z) (i_max : Z) (values : list Z)
+Variables (chk_lo : bool) (map_ : list Z) (sm_end : Z) (indices : list Z) (i_start i_max : Z) (values : list Z)
           (mv_start v_offset : Z).
 
 (* what the caller guarantees about every valid entry of the sub-chunk that lies in the
    current value window *)
 Definition window_ok (t:Z) : Prop :=
   let i := nthZ map_ t - mv_start in
-  i < i_max ->
+  (chk_lo = true -> i_start <= i) -> i < i_max ->
   0 <= i /\ i + 1 < len indices /\ 0 <= nthZ indices i - v_offset /\
   nthZ indices i <= nthZ indices (i + 1) /\ nthZ indices (i + 1) - v_offset <= len values /\
   sval (nthZ map_ t) = slice values (nthZ indices i - v_offset) (nthZ indices (i + 1) - v_offset).
@@ -27,8 +27,9 @@ Definition window_ok (t:Z) : Prop :=
 Definition stop_reason (j rvT:Z) (need need':bool) (lenrval:Z) : Prop :=
   (j = sm_end /\ need' = need) \/
   (j < sm_end /\ nthZ map_ j <> inv /\
-     ((nthZ map_ j - mv_start >= i_max /\ need' = true) \/
-      (nthZ map_ j - mv_start < i_max /\ need' = need /\ rvT + len (sval (nthZ map_ j)) > lenrval))).
+     (((nthZ map_ j - mv_start >= i_max \/ (chk_lo = true /\ nthZ map_ j - mv_start < i_start)) /\ need' = true) \/
+      ((chk_lo = true -> i_start <= nthZ map_ j - mv_start) /\ nthZ map_ j - mv_start < i_max /\
+       need' = need /\ rvT + len (sval (nthZ map_ j)) > lenrval))).
 
 Lemma oi_partial_loop_spec fuel : forall sm ri rv acc need ridx rval,
   0 <= sm -> sm <= sm_end -> sm_end <= len map_ ->
@@ -37,7 +38,7 @@ Lemma oi_partial_loop_spec fuel : forall sm ri rv acc need ridx rval,
   (forall t, sm <= t < sm_end -> nthZ map_ t <> inv -> window_ok t) ->
   exists j need' ridx' rval',
     let es := map sval (slice map_ sm j) in
-    oi_partial_loop fuel map_ sm_end indices i_max values mv_start inv v_offset
+    oi_partial_loop fuel chk_lo map_ sm_end indices i_start i_max values mv_start inv v_offset
                     (mk_ipst sm ri rv acc need ridx rval)
     = Ok (mk_ipst j (ri + (j - sm)) (rv + total es) (acc + total es) need' ridx' rval') /\
     sm <= j <= sm_end /\ len ridx' = len ridx /\ len rval' = len rval /\
@@ -71,14 +72,20 @@ Proof.
       * split; [cbn [concat app]; exact H7|exact H8].
     + (* valid entry *)
       assert (Hne : nthZ map_ sm <> inv) by lia.
-      destruct (nthZ map_ sm - mv_start >=? i_max) eqn:Emax.
+      destruct ((chk_lo && (nthZ map_ sm - mv_start <? i_start)) || (nthZ map_ sm - mv_start >=? i_max)) eqn:Emax.
       * (* need the next value sub-chunk *)
         exists sm, true, ridx, rval. cbv zeta. rewrite slice_empty. cbn [map].
         rewrite total_nil, !Z.add_0_r, Z.sub_diag, Z.add_0_r.
         split; [reflexivity|]. split; [lia|]. split; [reflexivity|]. split; [reflexivity|]. split; [lia|].
         cbn [offs_tail concat]. rewrite !app_nil_r. split; [reflexivity|]. split; [reflexivity|].
-        right. split; [lia|]. split; [exact Hne|]. left. split; [lia|reflexivity].
-      * destruct (Hw sm ltac:(lia) Hne ltac:(lia)) as [W1 [W2 [W3 [W4 [W5 W6]]]]].
+        right. split; [lia|]. split; [exact Hne|]. left. split; [|reflexivity].
+        destruct chk_lo; cbn [andb] in Emax; [|left; lia].
+        destruct (nthZ map_ sm - mv_start <? i_start) eqn:Elo; [right; split; [reflexivity|lia]|left; cbn [orb] in Emax; lia].
+      * assert (Hlo : chk_lo = true -> i_start <= nthZ map_ sm - mv_start).
+        { intros Hc. rewrite Hc in Emax. cbn [andb] in Emax. lia. }
+        assert (Hhi : nthZ map_ sm - mv_start < i_max).
+        { destruct (chk_lo && (nthZ map_ sm - mv_start <? i_start)); cbn [orb] in Emax; [discriminate|lia]. }
+        destruct (Hw sm ltac:(lia) Hne Hlo Hhi) as [W1 [W2 [W3 [W4 [W5 W6]]]]].
         set (i := nthZ map_ sm - mv_start) in *.
         rewrite (getZ_ok 133 indices i) by lia. cbn [bind].
         rewrite (getZ_ok 134 indices (i + 1)) by lia. cbn [bind].
@@ -92,7 +99,7 @@ Proof.
            rewrite total_nil, !Z.add_0_r, Z.sub_diag, Z.add_0_r.
            split; [reflexivity|]. split; [lia|]. split; [reflexivity|]. split; [reflexivity|]. split; [lia|].
            cbn [offs_tail concat]. rewrite !app_nil_r. split; [reflexivity|]. split; [reflexivity|].
-           right. split; [lia|]. split; [exact Hne|]. right. split; [lia|]. split; [reflexivity|]. lia.
+           right. split; [lia|]. split; [exact Hne|]. right. split; [exact Hlo|]. split; [lia|]. split; [reflexivity|]. lia.
         -- destruct (copy_bytes_spec (Z.to_nat (v_end - v_start)) values v_start rval rv) as [rval1 [C1 [C2 C3]]];
              try (unfold v_start, v_end in *; lia).
            rewrite C1. cbn [bind].
